@@ -1,4 +1,558 @@
-import KsiVerif.Model.Template
-/-! # C10 — property theorems (under construction) -/
+import KsiVerif.Proofs.Template
+import KsiVerif.Spec.SchemaRef
+import KsiVerif.Proofs.TemplateValues
+/-!
+# C10 — typed parsing enforces the KSI schema; unknown elements obey the critical flag
+
+Property theorems only.  Model: `KsiVerif.Template` (tlv_template.c `extractGenerator`, the value
+parsers of types_base.c / hash.c / hashchain.c, the entry points of types.c / signature.c /
+publicationsfile.c) over the template tables generated from the built library
+(`KsiVerif.Gen.Templates`).  Schema: `KsiVerif.Template.conforms` (Spec/Schema.lean).
+-/
 namespace KsiVerif.Props.C10
+open KsiVerif KsiVerif.Template
+
+/-- **The engine accepts exactly the conforming element lists** (for every table, every value
+parser and every list of elements), and then returns the values of the known elements by row in
+input order. -/
+theorem extract_iff_schema (tm : List Entry) (pv : Entry → Elem → Except Nat Val) (es : List Elem)
+    (vs : List (Nat × Val)) (hne : tm.isEmpty = false) :
+    extractG tm pv es = .ok vs ↔ conforms tm es = true ∧ specValues tm pv es = some vs :=
+  extractG_spec tm pv es vs hne
+
+/-- non-vacuity: a conforming list for a real table, and one that is not -/
+example : conforms Gen.tKSI_PublicationData [⟨0x04, false, false, []⟩, ⟨0x02, false, false, []⟩, ⟨0x1f, true, false, [1]⟩] = true := by decide
+example : conforms Gen.tKSI_PublicationData [⟨0x02, false, false, []⟩, ⟨0x04, false, false, []⟩, ⟨0x02, true, false, []⟩] = false := by decide
+
+/-! ## unknown elements -/
+
+/-- an unknown element that is not flagged non-critical makes the container unacceptable,
+wherever it stands and whatever else is there -/
+theorem unknown_critical_rejected (tm : List Entry) (pv : Entry → Elem → Except Nat Val) (l1 l2 : List Elem) (e : Elem)
+    (hu : rowOf tm e = none) (hc : e.nc = false) (vs : List (Nat × Val)) :
+    extractG tm pv (l1 ++ e :: l2) ≠ .ok vs := by
+  intro h
+  by_cases hne : tm.isEmpty = false
+  · have := ((extractG_spec tm pv _ vs hne).mp h).1
+    unfold conforms unknownOK at this
+    simp only [Bool.and_eq_true, List.all_append, List.all_cons, hu, hc, Option.isSome_none, Bool.or_self,
+      Bool.false_and, Bool.and_false, Bool.false_eq_true, false_and] at this
+  · unfold extractG at h
+    simp only [Bool.not_eq_false] at hne
+    rw [hne] at h; simp at h
+
+theorem run_skip_unknown (tm : List Entry) (pv : Entry → Elem → Except Nat Val) (e : Elem) (l2 : List Elem)
+    (hu : rowOf tm e = none) (hn : e.nc = true) :
+    ∀ (l1 : List Elem) (s : St), run tm pv s (l1 ++ e :: l2) = run tm pv s (l1 ++ l2) := by
+  intro l1
+  induction l1 with
+  | nil => intro s; simp only [List.nil_append, run, step_unknown tm pv s e hu, hn, if_true]
+  | cons a as ih =>
+    intro s
+    simp only [List.cons_append, run]
+    cases step tm pv s a with
+    | error c => rfl
+    | ok s' => exact ih s'
+
+/-- an unknown element flagged non-critical is ignored: with it or without it the container gives
+the same result — the same values for every known field, or the same error -/
+theorem unknown_noncritical_ignored (tm : List Entry) (pv : Entry → Elem → Except Nat Val) (l1 l2 : List Elem) (e : Elem)
+    (hu : rowOf tm e = none) (hn : e.nc = true) :
+    extractG tm pv (l1 ++ e :: l2) = extractG tm pv (l1 ++ l2) := by
+  unfold extractG
+  rw [run_skip_unknown tm pv e l2 hu hn l1 {}]
+
+/-! ## what conformance means, position by position -/
+
+theorem seqOK_at : ∀ (ks b k1 : List (Nat × Entry)) (k : Nat × Entry) (k2 : List (Nat × Entry)),
+    seqOK b ks = true → ks = k1 ++ k :: k2 → okAt (b ++ k1) k = true := by
+  intro ks
+  induction ks with
+  | nil => intro b k1 k k2 _ h; cases k1 <;> simp at h
+  | cons x xs ih =>
+    intro b k1 k k2 hs h
+    simp only [seqOK, Bool.and_eq_true] at hs
+    cases k1 with
+    | nil => simp only [List.nil_append, List.cons.injEq] at h; rw [← h.1]; simpa using hs.1
+    | cons y ys =>
+      simp only [List.cons_append, List.cons.injEq] at h
+      have := ih (b ++ [x]) ys k k2 hs.2 h.2
+      rw [h.1] at this
+      simpa using this
+
+theorem known_append (tm : List Entry) (l1 l2 : List Elem) : known tm (l1 ++ l2) = known tm l1 ++ known tm l2 := by
+  simp [known, List.filterMap_append]
+
+/-- a LAST element (the MAC of a v2 PDU) is followed by no known element -/
+theorem nothing_known_after_last (tm : List Entry) (l1 l2 : List Elem) (e : Elem) (i : Nat) (t : Entry)
+    (hc : conforms tm (l1 ++ e :: l2) = true) (hr : rowOf tm e = some (i, t)) (hl : t.has FLG_LAST = true) :
+    known tm l2 = [] := by
+  unfold conforms at hc
+  simp only [Bool.and_eq_true] at hc
+  have hs := hc.1.2
+  rw [known_append, known_cons_some tm e l2 (i, t) hr] at hs
+  cases hk : known tm l2 with
+  | nil => rfl
+  | cons k ks =>
+    rw [hk] at hs
+    have := seqOK_at _ [] (known tm l1 ++ [(i, t)]) k ks hs (by simp)
+    unfold okAt at this
+    simp only [List.nil_append, Bool.and_eq_true, List.all_append, List.all_cons, hl, Bool.not_true, List.all_nil,
+      Bool.and_true, Bool.and_false, Bool.false_eq_true, and_false, false_and] at this
+
+/-- a FIRST element (the header of a v2 PDU, the padding of a metadata record) is preceded by no
+known element -/
+theorem nothing_known_before_first (tm : List Entry) (l1 l2 : List Elem) (e : Elem) (i : Nat) (t : Entry)
+    (hc : conforms tm (l1 ++ e :: l2) = true) (hr : rowOf tm e = some (i, t)) (hf : t.has FLG_FIRST = true) :
+    known tm l1 = [] := by
+  unfold conforms at hc
+  simp only [Bool.and_eq_true] at hc
+  have hs := hc.1.2
+  rw [known_append, known_cons_some tm e l2 (i, t) hr] at hs
+  have := seqOK_at _ [] (known tm l1) (i, t) (known tm l2) hs rfl
+  unfold okAt at this
+  simp only [List.nil_append, Bool.and_eq_true, hf, Bool.not_true, Bool.false_or] at this
+  simpa using this.1.1.1.1.2
+
+/-- a single-valued field is assigned at most once: no two elements of rows storing into the
+same field unless the later row is list-valued -/
+theorem single_valued_once (tm : List Entry) (l1 l2 l3 : List Elem) (e1 e2 : Elem) (i1 i2 : Nat) (t1 t2 : Entry)
+    (hc : conforms tm (l1 ++ e1 :: l2 ++ e2 :: l3) = true)
+    (h1 : rowOf tm e1 = some (i1, t1)) (h2 : rowOf tm e2 = some (i2, t2)) (hg : t1.getter = t2.getter) :
+    t2.multiple = true := by
+  unfold conforms at hc
+  simp only [Bool.and_eq_true] at hc
+  have hs := hc.1.2
+  rw [known_append, known_cons_some tm e2 l3 (i2, t2) h2, known_append, known_cons_some tm e1 l2 (i1, t1) h1] at hs
+  have := seqOK_at _ [] _ (i2, t2) (known tm l3) hs rfl
+  unfold okAt at this
+  simp only [List.nil_append, Bool.and_eq_true, Bool.or_eq_true] at this
+  rcases this.2 with h | h
+  · exact h
+  · simp only [List.all_append, List.all_cons, Bool.and_eq_true] at h
+    have := h.2.1
+    simp [hg] at this
+
+/-- mutually exclusive alternatives (group 0) are not combined -/
+theorem exclusive_group0_once (tm : List Entry) (l1 l2 l3 : List Elem) (e1 e2 : Elem) (i1 i2 : Nat) (t1 t2 : Entry)
+    (hc : conforms tm (l1 ++ e1 :: l2 ++ e2 :: l3) = true)
+    (h1 : rowOf tm e1 = some (i1, t1)) (h2 : rowOf tm e2 = some (i2, t2))
+    (hm1 : t1.has FLG_MOST_ONE_G0 = true) : t2.has FLG_MOST_ONE_G0 = false := by
+  unfold conforms at hc
+  simp only [Bool.and_eq_true] at hc
+  have hs := hc.1.2
+  rw [known_append, known_cons_some tm e2 l3 (i2, t2) h2, known_append, known_cons_some tm e1 l2 (i1, t1) h1] at hs
+  have := seqOK_at _ [] _ (i2, t2) (known tm l3) hs rfl
+  unfold okAt at this
+  simp only [List.nil_append, Bool.and_eq_true, Bool.or_eq_true] at this
+  rcases this.1.1.2 with h | h
+  · simpa using h
+  · simp only [List.all_append, List.all_cons, Bool.and_eq_true] at h
+    have := h.2.1
+    simp [hm1] at this
+
+/-- rows of a fixed-order table (the publications file) appear in table order -/
+theorem fixed_order_sorted (tm : List Entry) (l1 l2 l3 : List Elem) (e1 e2 : Elem) (i1 i2 : Nat) (t1 t2 : Entry)
+    (hc : conforms tm (l1 ++ e1 :: l2 ++ e2 :: l3) = true)
+    (h1 : rowOf tm e1 = some (i1, t1)) (h2 : rowOf tm e2 = some (i2, t2))
+    (hf1 : t1.has FLG_FIXED_ORDER = true) (hf2 : t2.has FLG_FIXED_ORDER = true) : i1 ≤ i2 := by
+  unfold conforms at hc
+  simp only [Bool.and_eq_true] at hc
+  have hs := hc.1.2
+  rw [known_append, known_cons_some tm e2 l3 (i2, t2) h2, known_append, known_cons_some tm e1 l2 (i1, t1) h1] at hs
+  have := seqOK_at _ [] _ (i2, t2) (known tm l3) hs rfl
+  unfold okAt at this
+  simp only [List.nil_append, Bool.and_eq_true, Bool.or_eq_true] at this
+  rcases this.1.1.1.1.1 with h | h
+  · simp [hf2] at h
+  · simp only [List.all_append, List.all_cons, Bool.and_eq_true] at h
+    have := h.2.1
+    simpa [hf1] using this
+
+theorem completeFrom_at (ks : List (Nat × Entry)) : ∀ (tm : List Entry) (i0 j : Nat) (t : Entry),
+    completeFrom ks tm i0 = true → tm[j]? = some t →
+      (t.has FLG_MANDATORY = true → ks.any (·.1 == i0 + j) = true) ∧
+      (t.has FLG_LEAST_ONE_G0 = true → ks.any (·.2.has FLG_LEAST_ONE_G0) = true) ∧
+      (t.has FLG_LEAST_ONE_G1 = true → ks.any (·.2.has FLG_LEAST_ONE_G1) = true) := by
+  intro tm
+  induction tm with
+  | nil => intro i0 j t _ h; simp at h
+  | cons x xs ih =>
+    intro i0 j t hc h
+    simp only [completeFrom, Bool.and_eq_true, Bool.or_eq_true, Bool.not_eq_true'] at hc
+    cases j with
+    | zero =>
+      simp only [List.getElem?_cons_zero, Option.some.injEq] at h
+      subst h
+      refine ⟨fun hm => ?_, fun hm => ?_, fun hm => ?_⟩
+      · rcases hc.1.1.1 with h | h
+        · rw [hm] at h; cases h
+        · simpa using h
+      · rcases hc.1.1.2 with h | h
+        · rw [hm] at h; cases h
+        · exact h
+      · rcases hc.1.2 with h | h
+        · rw [hm] at h; cases h
+        · exact h
+    | succ j =>
+      simp only [List.getElem?_cons_succ] at h
+      have := ih (i0 + 1) j t hc.2 h
+      rw [show i0 + 1 + j = i0 + (j + 1) by omega] at this
+      exact this
+
+/-- every mandatory row is present, and every at-least-one group is hit -/
+theorem mandatory_present (tm : List Entry) (es : List Elem) (j : Nat) (t : Entry)
+    (hc : conforms tm es = true) (ht : tm[j]? = some t) :
+    (t.has FLG_MANDATORY = true → ∃ e ∈ es, ∃ u, rowOf tm e = some (j, u)) ∧
+    (t.has FLG_LEAST_ONE_G0 = true → ∃ e ∈ es, ∃ i u, rowOf tm e = some (i, u) ∧ u.has FLG_LEAST_ONE_G0 = true) ∧
+    (t.has FLG_LEAST_ONE_G1 = true → ∃ e ∈ es, ∃ i u, rowOf tm e = some (i, u) ∧ u.has FLG_LEAST_ONE_G1 = true) := by
+  unfold conforms at hc
+  simp only [Bool.and_eq_true] at hc
+  have := completeFrom_at (known tm es) tm 0 j t hc.2 ht
+  refine ⟨fun hm => ?_, fun hm => ?_, fun hm => ?_⟩
+  · have h := this.1 hm
+    simp only [known, List.any_eq_true, List.mem_filterMap, Nat.zero_add, beq_iff_eq] at h
+    obtain ⟨⟨i, u⟩, ⟨e, he, hr⟩, hi⟩ := h
+    simp only at hi
+    exact ⟨e, he, u, by rw [hr, hi]⟩
+  · have h := this.2.1 hm
+    simp only [known, List.any_eq_true, List.mem_filterMap] at h
+    obtain ⟨⟨i, u⟩, ⟨e, he, hr⟩, hi⟩ := h
+    exact ⟨e, he, i, u, hr, hi⟩
+  · have h := this.2.2 hm
+    simp only [known, List.any_eq_true, List.mem_filterMap] at h
+    obtain ⟨⟨i, u⟩, ⟨e, he, hr⟩, hi⟩ := h
+    exact ⟨e, he, i, u, hr, hi⟩
+
+end KsiVerif.Props.C10
+
+/-! ## the schema tables -/
+namespace KsiVerif.Props.C10
+open KsiVerif KsiVerif.Template
+
+/-- the tables generated from the current source are the reference schema -/
+theorem tables_are_the_reference_schema : Gen.templates = SchemaRef.templates := by decide
+
+/-- what the engine model leaves out does not occur in any table: no row is flagged MORE_DEFS
+(several rows for one tag), no table is empty, no row has tag 0 (the table terminator) -/
+theorem tables_within_model :
+    ∀ t ∈ Gen.templates, t.2.isEmpty = false ∧ ∀ e ∈ t.2, e.has FLG_MORE_DEFS = false ∧ e.tag ≠ 0 := by decide
+
+/-- a field shared by several rows (left / right links of a chain) is list-valued in all of them,
+so "assigned once" is the same as "each single-valued row occurs at most once" -/
+theorem shared_fields_are_lists :
+    ∀ t ∈ Gen.templates, ∀ e ∈ t.2, ∀ e' ∈ t.2, e.getter = e'.getter → e.tag ≠ e'.tag → (e.multiple = true ∧ e'.multiple = true) := by
+  decide
+
+/-- v2 PDUs: the header row is FIRST, the MAC row is LAST (and is an imprint) -/
+theorem v2_pdu_header_first_mac_last :
+    ∀ tm ∈ [Gen.tKSI_AggregationReqPdu, Gen.tKSI_AggregationRespPdu, Gen.tKSI_ExtendReqPdu, Gen.tKSI_ExtendRespPdu],
+      (∃ h ∈ tm, h.tag = 0x01 ∧ h.has FLG_FIRST = true ∧ h.multiple = false) ∧
+      (∃ m ∈ tm, m.tag = 0x1f ∧ m.has FLG_LAST = true ∧ m.kind = .imprint ∧ m.multiple = false) ∧
+      (∀ r ∈ tm, r.tag ≠ 0x01 → r.tag ≠ 0x1f → r.has FLG_LEAST_ONE_G0 = true) := by decide
+
+/-- publications file: header, certificate records, publication records, signature — all rows
+fixed-order, header and signature mandatory and single -/
+theorem pubfile_sections_in_order :
+    Gen.tKSI_PublicationsFile.map (fun e => (e.tag, e.has FLG_FIXED_ORDER, e.has FLG_MANDATORY, e.multiple)) =
+      [(0x701, true, true, false), (0x702, true, false, true), (0x703, true, false, true), (0x704, true, true, false)] := by decide
+
+end KsiVerif.Props.C10
+
+/-! ## value parsers -/
+namespace KsiVerif.Props.C10
+open KsiVerif KsiVerif.Template
+
+/-- integers: accepted exactly when at most 8 octets long with no leading zero octet (the minimal
+big-endian encoding of a 64-bit value; zero is the empty string); the value is the big-endian value -/
+theorem integer_minimal_64bit (p : Bytes) (n : Nat) :
+    parseInt p = .ok n ↔ p.length ≤ 8 ∧ p.head? ≠ some 0 ∧ n = beVal p := by
+  unfold parseInt
+  cases p with
+  | nil => simp [beVal]; exact eq_comm
+  | cons h t =>
+    by_cases hl : (h :: t).length > 8
+    · simp only [hl, if_true]
+      constructor
+      · intro x; cases x
+      · intro ⟨h1, _⟩; omega
+    · simp only [hl, if_false]
+      have hlt : t.length < 8 := by simp only [List.length_cons] at hl; omega
+      have hv := beVal_cons h t
+      have hb := beVal_lt t
+      by_cases hz : h = 0
+      · -- leading zero: the value needs fewer octets
+        have hv' : beVal (h :: t) < 256 ^ t.length := by rw [hv, hz]; simpa using hb
+        have := minSize_le _ _ (by omega) hv'
+        have hne : ((h :: t).length != minSize (beVal (h :: t))) = true := by
+          simp only [List.length_cons, bne_iff_ne, ne_eq]; omega
+        have hcond : (decide ((h :: t).length > 0) && ((h :: t).length != minSize (beVal (h :: t)))) = true := by
+          rw [hne]; simp
+        rw [if_pos hcond]
+        constructor
+        · intro x; cases x
+        · intro ⟨_, x, _⟩; rw [hz] at x; simp at x
+      · have hpos : 1 ≤ h.toNat := by
+          rcases Nat.eq_zero_or_pos h.toNat with h0 | h0
+          · exact absurd (UInt8.toNat_inj.mp (by simpa using h0)) hz
+          · exact h0
+        have h1 : 256 ^ t.length ≤ beVal (h :: t) := by
+          rw [hv]; exact Nat.le_trans (Nat.le_mul_of_pos_left _ hpos) (Nat.le_add_right _ _)
+        have h2 : beVal (h :: t) < 256 ^ (t.length + 1) := beVal_lt (h :: t)
+        have := minSize_eq _ _ hlt h1 h2
+        have heq : ((h :: t).length != minSize (beVal (h :: t))) = false := by
+          simp only [List.length_cons, this, bne_self_eq_false]
+        have hcond : ¬ (decide ((h :: t).length > 0) && ((h :: t).length != minSize (beVal (h :: t)))) = true := by
+          rw [heq]; simp
+        rw [if_neg hcond]
+        simp only [Except.ok.injEq, List.head?_cons, ne_eq, Option.some.injEq, hz, not_false_eq_true, true_and]
+        constructor
+        · intro x; exact ⟨by simp only [List.length_cons] at hl ⊢; omega, x.symm⟩
+        · intro x; exact x.2.symm
+
+/-- non-vacuity / boundary: 2^64-1 is accepted, a 9-octet value and `00` are not -/
+example : parseInt [255, 255] = .ok 65535 := by simp [parseInt, beVal, minSize]
+example : parseInt [1, 0, 0, 0, 0, 0, 0, 0, 0] = .error IF := by simp [parseInt]
+example : parseInt [0] = .error IF := by simp [parseInt, beVal, minSize]
+
+/-- imprints: accepted exactly when a known algorithm id is followed by a digest of that
+algorithm's length -/
+theorem imprint_known_algorithm_and_length (p h : Bytes) :
+    parseImprint p = .ok h ↔
+      h = p ∧ ∃ a d, p = a :: d ∧ d ≠ [] ∧ Gen.hashValid a.toNat = true ∧ Gen.hashLen a.toNat = d.length ∧ d.length ≤ MAX_IMPRINT_LEN := by
+  unfold parseImprint
+  cases p with
+  | nil => simp
+  | cons a d =>
+    by_cases h1 : d.isEmpty = true
+    · have : d = [] := List.isEmpty_iff.mp h1
+      simp only [this, List.isEmpty_nil, if_true]
+      constructor
+      · intro x; cases x
+      · rintro ⟨_, a', d', hp, hd', _⟩; cases hp; exact absurd rfl hd'
+    · have hd : d ≠ [] := fun x => h1 (by simp [x])
+      simp only [h1, Bool.false_eq_true, if_false]
+      by_cases h2 : Gen.hashValid a.toNat = true
+      · simp only [h2, Bool.not_true, Bool.false_eq_true, if_false]
+        by_cases h3 : Gen.hashLen a.toNat = d.length
+        · simp only [h3, bne_self_eq_false, Bool.false_eq_true, if_false]
+          by_cases h4 : d.length > MAX_IMPRINT_LEN
+          · simp only [h4, if_true]
+            constructor
+            · intro x; cases x
+            · rintro ⟨_, a', d', hp, _, _, _, h5⟩; cases hp; omega
+          · simp only [h4, if_false, Except.ok.injEq]
+            constructor
+            · intro x; exact ⟨x.symm, a, d, rfl, hd, h2, h3, by omega⟩
+            · intro x; exact x.1.symm
+        · have : (Gen.hashLen a.toNat != d.length) = true := by simpa using h3
+          simp only [this, if_true]
+          constructor
+          · intro x; cases x
+          · rintro ⟨_, a', d', hp, _, _, h5, _⟩; cases hp; exact absurd h5 h3
+      · simp only [Bool.not_eq_true] at h2
+        simp only [h2, Bool.not_false, if_true]
+        constructor
+        · intro x; cases x
+        · rintro ⟨_, a', d', hp, _, h5, _, _⟩; cases hp; rw [h2] at h5; cases h5
+
+/-- legacy identifiers: 29 octets `03 00 n <n octets> 00 … 00` with n ≤ 25 -/
+theorem legacy_id_well_formed (p b : Bytes) :
+    parseLegacyId p = .ok b ↔
+      b = p ∧ p.length = 29 ∧ p.getD 0 0 = 3 ∧ p.getD 1 0 = 0 ∧ (p.getD 2 0).toNat ≤ 25 ∧
+        ∀ x ∈ p.drop ((p.getD 2 0).toNat + 3), x = 0 := by
+  unfold parseLegacyId
+  by_cases h1 : p.length = 29
+  · simp only [h1, bne_self_eq_false, Bool.false_eq_true, if_false, true_and]
+    by_cases h2 : (p.getD 0 0 == 3 && p.getD 1 0 == 0) = true
+    · simp only [h2, Bool.not_true, Bool.false_eq_true, if_false]
+      simp only [Bool.and_eq_true, beq_iff_eq] at h2
+      by_cases h3 : (p.getD 2 0).toNat > 25
+      · simp only [h3, if_true]
+        constructor
+        · intro x; cases x
+        · intro ⟨_, _, _, h, _⟩; omega
+      · simp only [h3, if_false]
+        by_cases h4 : (p.drop ((p.getD 2 0).toNat + 3)).any (· != 0) = true
+        · simp only [h4, if_true]
+          constructor
+          · intro x; cases x
+          · intro ⟨_, _, _, _, h⟩
+            simp only [List.any_eq_true, bne_iff_ne, ne_eq] at h4
+            obtain ⟨x, hx, hne⟩ := h4
+            exact absurd (h x hx) hne
+        · simp only [h4, Bool.false_eq_true, if_false, Except.ok.injEq]
+          constructor
+          · intro x
+            refine ⟨x.symm, h2.1, h2.2, by omega, ?_⟩
+            intro y hy
+            simp only [List.any_eq_true, bne_iff_ne, ne_eq, not_exists, not_and, Decidable.not_not] at h4
+            exact h4 y hy
+          · intro x; exact x.1.symm
+    · have : (!(p.getD 0 0 == 3 && p.getD 1 0 == 0)) = true := by
+        cases hh : (p.getD 0 0 == 3 && p.getD 1 0 == 0) with
+        | true => exact absurd hh h2
+        | false => rfl
+      simp only [this, if_true]
+      constructor
+      · intro x; cases x
+      · intro ⟨_, h3, h4, _, _⟩; exact absurd (by rw [h3, h4]; rfl) h2
+  · have : (p.length != 29) = true := by simpa using h1
+    simp only [this, if_true]
+    constructor
+    · intro x; cases x
+    · intro ⟨_, h, _⟩; exact absurd h h1
+
+end KsiVerif.Props.C10
+
+namespace KsiVerif.Props.C10
+open KsiVerif KsiVerif.Template
+
+/-- strings: accepted exactly when NUL-terminated, without another NUL, and with well-formed
+UTF-8 lead / continuation structure -/
+theorem string_well_formed (p s : Bytes) : parseUtf8 p = .ok s ↔ s = p ∧ WellFormedString p := by
+  unfold parseUtf8 WellFormedString
+  by_cases h1 : (p.isEmpty || p.getLast? != some 0) = true
+  · rw [if_pos h1]
+    constructor
+    · intro x; cases x
+    · intro ⟨_, h2, _⟩
+      simp only [Bool.or_eq_true, bne_iff_ne, ne_eq] at h1
+      rcases h1 with h1 | h1
+      · have : p = [] := List.isEmpty_iff.mp h1
+        rw [this] at h2; simp at h2
+      · exact absurd h2 h1
+  · rw [if_neg h1]
+    have hlast : p.getLast? = some 0 := by
+      simp only [Bool.or_eq_true, bne_iff_ne, ne_eq, not_or, Decidable.not_not] at h1
+      exact h1.2
+    cases hv : verifyUtf8 p with
+    | error c =>
+      simp only
+      constructor
+      · intro x; cases x
+      · intro ⟨_, _, h3⟩; rw [verifyUtf8_complete p h3] at hv; cases hv
+    | ok u =>
+      simp only [Except.ok.injEq]
+      constructor
+      · intro x; exact ⟨x.symm, hlast, verifyUtf8_sound p.length p rfl hv⟩
+      · intro x; exact x.1.symm
+
+/-- strings that must not be empty (URIs, references): additionally at least one character -/
+theorem string_nonempty (p s : Bytes) : parseUtf8NZ p = .ok s ↔ s = p ∧ WellFormedString p ∧ 2 ≤ p.length := by
+  unfold parseUtf8NZ
+  cases h : parseUtf8 p with
+  | error c =>
+    simp only
+    constructor
+    · intro x; cases x
+    · intro ⟨_, h2, _⟩
+      have := (string_well_formed p p).mpr ⟨rfl, h2⟩
+      rw [h] at this; cases this
+  | ok t =>
+    have ht := (string_well_formed p t).mp h
+    simp only
+    rw [ht.1]
+    by_cases hl : p.length ≤ 1
+    · rw [if_pos hl]
+      constructor
+      · intro x; cases x
+      · intro ⟨_, _, h3⟩; omega
+    · rw [if_neg hl]
+      simp only [Except.ok.injEq]
+      constructor
+      · intro x; exact ⟨x.symm, ht.2, by omega⟩
+      · intro x; exact x.1.symm
+
+/-- non-vacuity: "ä€" NUL is well formed; a lone continuation octet, a truncated character and an
+embedded NUL are not -/
+example : WellFormedString [0xc3, 0xa4, 0xe2, 0x82, 0xac, 0] :=
+  ⟨rfl, .two _ _ _ (by decide) (by decide) ⟨by decide, by decide⟩
+    (.three _ _ _ _ (by decide) (by decide) ⟨by decide, by decide⟩ ⟨by decide, by decide⟩
+      (.one _ _ (by decide) (Or.inr rfl) .nil))⟩
+
+end KsiVerif.Props.C10
+
+namespace KsiVerif.Props.C10
+open KsiVerif KsiVerif.Template KsiVerif.Tlv
+
+/-- how the value of a row is obtained, kind by kind (scalars) -/
+theorem scalar_values (tabs : Tables) (derOK : Bytes → Bool) (fuel : Nat) (t : Entry) (e : Elem) :
+    (t.kind = .int → parseVal tabs derOK (fuel + 1) t e = (parseInt e.payload).map .int) ∧
+    (t.kind = .utf8 → parseVal tabs derOK (fuel + 1) t e = (parseUtf8 e.payload).map .str) ∧
+    (t.kind = .utf8nz → parseVal tabs derOK (fuel + 1) t e = (parseUtf8NZ e.payload).map .str) ∧
+    (t.kind = .octet → parseVal tabs derOK (fuel + 1) t e = .ok (.oct e.payload)) ∧
+    (t.kind = .imprint → parseVal tabs derOK (fuel + 1) t e = (parseImprint e.payload).map .imprint) ∧
+    (t.kind = .legacyId → parseVal tabs derOK (fuel + 1) t e = (parseLegacyId e.payload).map .oct) := by
+  refine ⟨fun h => ?_, fun h => ?_, fun h => ?_, fun h => ?_, fun h => ?_, fun h => ?_⟩
+  · simp only [parseVal, h]; cases parseInt e.payload <;> rfl
+  · simp only [parseVal, h]; cases parseUtf8 e.payload <;> rfl
+  · simp only [parseVal, h]; cases parseUtf8NZ e.payload <;> rfl
+  · simp only [parseVal, h]
+  · simp only [parseVal, h]; cases parseImprint e.payload <;> rfl
+  · simp only [parseVal, h]; cases parseLegacyId e.payload <;> rfl
+
+/-- a composite row (and likewise every nested object): its content must tile into TLVs that
+conform to the sub-table, all known values parsing one nesting level further down -/
+theorem composite_value (tabs : Tables) (derOK : Bytes → Bool) (fuel : Nat) (t : Entry) (e : Elem) (v : Val)
+    (hk : t.kind = .composite) (hne : (lookup tabs t.sub).isEmpty = false) :
+    parseVal tabs derOK (fuel + 1) t e = .ok v ↔
+      ∃ ts vs, expand e.payload = .ok ts ∧ conforms (lookup tabs t.sub) (ts.map Elem.ofTlv) = true ∧
+        specValues (lookup tabs t.sub) (parseVal tabs derOK fuel) (ts.map Elem.ofTlv) = some vs ∧
+        v = .obj (keyed (lookup tabs t.sub) vs) := by
+  simp only [parseVal, hk, extractBytes]
+  cases hx : expand e.payload with
+  | error c => simp
+  | ok ts =>
+    simp only [Except.ok.injEq, exists_and_left, exists_eq_left']
+    cases hg : extractG (lookup tabs t.sub) (parseVal tabs derOK fuel) (ts.map Elem.ofTlv) with
+    | error c =>
+      simp only
+      constructor
+      · intro x; cases x
+      · rintro ⟨hc, vs, hs, _⟩
+        have := (extractG_spec _ _ _ vs hne).mpr ⟨hc, hs⟩
+        rw [hg] at this; cases this
+    | ok ws =>
+      have := (extractG_spec _ _ _ ws hne).mp hg
+      simp only [Except.ok.injEq]
+      constructor
+      · intro x; exact ⟨this.1, ws, this.2, x.symm⟩
+      · rintro ⟨_, vs, hs, hv⟩
+        rw [this.2] at hs; cases hs; exact hv.symm
+
+/-- `KSI_TlvTemplate_parse` (through which the PDU entry points go): one well-sized TLV whose
+content tiles into elements conforming to the table -/
+theorem templateParse_iff (c : Cfg) (name : String) (raw : Bytes) (out : List (Nat × Val))
+    (hne : (lookup c.tabs name).isEmpty = false) :
+    templateParse c name raw = .ok out ↔
+      ∃ t ts vs, parseBlob raw = .ok t ∧ expand (Elem.ofTlv t).payload = .ok ts ∧
+        conforms (lookup c.tabs name) (ts.map Elem.ofTlv) = true ∧
+        specValues (lookup c.tabs name) (parseVal c.tabs c.derOK FUEL) (ts.map Elem.ofTlv) = some vs ∧
+        out = keyed (lookup c.tabs name) vs := by
+  unfold templateParse extractBytes
+  cases hb : parseBlob raw with
+  | error x => simp
+  | ok t =>
+    simp only [Except.ok.injEq, exists_and_left, exists_eq_left']
+    cases hx : expand (Elem.ofTlv t).payload with
+    | error x => simp
+    | ok ts =>
+      simp only [Except.ok.injEq, exists_eq_left']
+      cases hg : extractG (lookup c.tabs name) (parseVal c.tabs c.derOK FUEL) (ts.map Elem.ofTlv) with
+      | error x =>
+        simp only
+        constructor
+        · intro x; cases x
+        · rintro ⟨hc, vs, hs, _⟩
+          have := (extractG_spec _ _ _ vs hne).mpr ⟨hc, hs⟩
+          rw [hg] at this; cases this
+      | ok ws =>
+        have := (extractG_spec _ _ _ ws hne).mp hg
+        simp only [Except.ok.injEq]
+        constructor
+        · intro x; exact ⟨this.1, ws, this.2, x.symm⟩
+        · rintro ⟨_, vs, hs, hv⟩
+          rw [this.2] at hs; cases hs; exact hv.symm
+
 end KsiVerif.Props.C10
